@@ -69,7 +69,7 @@ impl<'a> G<'a> {
         }
     }
     fn atom(&mut self, depth: u32, in_lb: bool) -> Ast {
-        let k = if depth == 0 { self.r.below(9) } else { self.r.below(22) };
+        let k = if depth == 0 { [0, 1, 2, 3, 4, 5, 6, 7, 8, 19, 20][self.r.below(11) as usize] } else { self.r.below(24) };
         match k {
             0 | 1 | 2 | 3 => Ast::Char(*self.r.pick(CHARS)),
             4 => Ast::Any,
@@ -95,7 +95,7 @@ impl<'a> G<'a> {
             }
             9 | 10 | 11 => {
                 self.ngroups_seen += 1;
-                let name = if self.r.chance(1, 5) {
+                let name = if self.r.chance(1, 3) {
                     let n = self.r.pick(NAMES).to_string();
                     if self.names_seen.contains(&n) {
                         None // the same name again in this alternative (or nested) is an early error
@@ -127,10 +127,33 @@ impl<'a> G<'a> {
                 Ast::Modifier { on, off, body: Box::new(self.alt(depth - 1, in_lb)) }
             }
             19 => {
-                if !self.names_seen.is_empty() {
+                // a named reference, possibly to a group that opens later (or in a lookbehind: earlier in
+                // matching order); patterns whose name is never defined are dropped by the caller
+                if !self.names_seen.is_empty() && self.r.chance(1, 2) {
                     Ast::NamedRef(self.r.pick(&self.names_seen).clone())
                 } else {
-                    Ast::Char(0x62)
+                    Ast::NamedRef(self.r.pick(NAMES).to_string())
+                }
+            }
+            20 | 21 => {
+                // duplicate-name gadget: the same name in two alternatives, often with a \k reference nearby
+                let n = self.r.pick(NAMES).to_string();
+                if self.names_seen.contains(&n) {
+                    return Ast::NamedRef(n);
+                }
+                self.ngroups_seen += 2;
+                let b1 = Ast::Char(*self.r.pick(&[0x61u32, 0x62, 0x78]));
+                let b2 = if self.r.chance(1, 3) { Ast::Empty } else { Ast::Char(*self.r.pick(&[0x61u32, 0x62, 0x63])) };
+                let alt = Ast::NonCap(Box::new(Ast::Alt(vec![
+                    Ast::Group { name: Some(n.clone()), body: Box::new(b1) },
+                    Ast::Group { name: Some(n.clone()), body: Box::new(b2) },
+                ])));
+                self.names_seen.push(n.clone());
+                match self.r.below(4) {
+                    0 => Ast::Seq(vec![Ast::NamedRef(n), alt]),
+                    1 => Ast::Seq(vec![alt, Ast::NamedRef(n)]),
+                    2 => Ast::Seq(vec![alt, Ast::Any, Ast::NamedRef(n)]),
+                    _ => alt,
                 }
             }
             _ => Ast::Empty,
